@@ -203,6 +203,9 @@ func runC13(r *report.Run) {
 			break
 		}
 	}
+	if r.Thorough() {
+		runNativeFuzz(r, "FuzzWire", 1500000)
+	}
 }
 
 func replayC13(r *report.Run, raw json.RawMessage) {
